@@ -11,9 +11,9 @@ import (
 	"fmt"
 	"os"
 	"reflect"
-	"runtime/pprof"
 	"runtime"
-		"strings"
+	"runtime/pprof"
+	"strings"
 	"sync"
 	"sync/atomic"
 	"testing"
@@ -251,11 +251,11 @@ type explorer struct {
 	depth int
 
 	nodes, transitions, noops, errs, views, nonEmptyViews, rootChecks, placements atomic.Int64
-	maxLen                                                                          atomic.Int64
-	errKinds                                                                        sync.Map
-	abandoned                                                                       atomic.Int64
-	splitAt                                                                         int
-	tasks                                                                           [][]op
+	maxLen                                                                        atomic.Int64
+	errKinds                                                                      sync.Map
+	abandoned                                                                     atomic.Int64
+	splitAt                                                                       int
+	tasks                                                                         [][]op
 }
 
 type child struct {
@@ -439,7 +439,7 @@ func TestCheck(t *testing.T) {
 	if err != nil {
 		r.Infra("canonical chains: %v", err)
 	}
-	chk := &checker{r: r, canons: canons}
+	chk := &checker{r: r, canons: canons, tallest: canons[4]}
 	classesBefore := classPoolDigest()
 
 	depth := ev.Pick(r, 4, 5)
@@ -455,7 +455,7 @@ func TestCheck(t *testing.T) {
 		x.merge(x6)
 	}
 	// cross-validation of the memoisation: a shallower exploration with every functional check re-evaluated on every path
-	chk2 := &checker{r: r, canons: canons, noMemo: true}
+	chk2 := &checker{r: r, canons: canons, noMemo: true, tallest: canons[4]}
 	x2 := &explorer{r: r, c: chk2, cfg: x.cfg, depth: ev.Pick(r, 2, 3)}
 	runExplorer(x2)
 	r.Set("A_nomemo_depth", int64(x2.depth))
